@@ -101,8 +101,44 @@ Definition sb_op_ok_a (o : bop) : Prop :=
   match o with
   | BPwc n xs => length xs <= n
   | BCommitOver _ _ => False     (* with an empty span "span length + 1" may lie inside the buffer: not a violation *)
+  | BWriteParts _ => False       (* may be written in part: see sb_write_parts_a_ok *)
   | _ => True
   end.
+
+Lemma sb_write_a_ok : forall ok xs b, sb_wf_a b ->
+  exists b' r, sb_write_a ok xs b = Ok (b', r) /\ sb_wf_a b' /\
+               (if r then sb_view b' = sb_view b ++ xs else sb_view b' = sb_view b).
+Proof.
+  intros ok xs b W. unfold sb_write_a. destruct (Nat.eqb_spec (length xs) 0) as [E|E].
+  - apply length_zero_iff_nil in E. subst xs. exists b, true. rewrite app_nil_r. auto.
+  - destruct (sb_prepare_a_ok ok (length xs) b W) as (k & r & -> & A & B). cbn [rbind fst snd].
+    destruct b as [d s]; cbn [sbdata sbsize] in *. destruct r.
+    + specialize (A eq_refl). unfold sb_poke; cbn [sbdata sbsize]. rewrite app_length, repeat_length.
+      destruct (Nat.leb_spec (s + length xs) (length d + k)); [|lia]. cbn [rbind sbdata sbsize].
+      destruct (sb_ext_wf_a d s k W ltac:(lia)) as (W' & V').
+      destruct (sb_append_ok_a (d ++ repeat 0%Z k) s xs W' ltac:(rewrite app_length, repeat_length; lia)) as (W'' & V'').
+      exists (mksb (overwrite s xs (d ++ repeat 0%Z k)) (s + length xs)), true. split; [reflexivity|]. split; [assumption|]. rewrite V'', V'. reflexivity.
+    + rewrite (B eq_refl). cbn [repeat]. rewrite app_nil_r. exists (mksb d s), false. auto.
+Qed.
+
+(* write(a1, a2, ...) under a refusing allocator: the arguments before the first one that cannot be stored are
+   written, the count returned says how many bytes that was, and nothing else changes *)
+Theorem sb_write_parts_a_ok : forall ok parts written b, sb_wf_a b ->
+  exists b' r k, sb_write_parts_a ok parts written b = Ok (b', r) /\ sb_wf_a b' /\ k <= length parts /\
+    sb_view b' = sb_view b ++ concat (firstn k parts) /\
+    ((k = length parts /\ r = BOkN true (written + length (concat parts))) \/
+     r = BOkN false (written + length (concat (firstn k parts)))).
+Proof.
+  intros ok. induction parts as [|xs tl IH]; intros written b W; cbn [sb_write_parts_a].
+  - exists b, (BOkN true written), 0. cbn. rewrite app_nil_r, Nat.add_0_r. split; [reflexivity|]. split; [assumption|]. split; [lia|]. split; [reflexivity|left; auto].
+  - destruct (sb_write_a_ok ok xs b W) as (b1 & r1 & -> & W1 & V1). cbn [rbind fst snd]. destruct r1.
+    + destruct (IH (written + length xs) b1 W1) as (b' & r & k & -> & W' & Hk & V' & R).
+      exists b', r, (S k). split; [reflexivity|]. split; [assumption|]. split; [cbn; lia|]. split.
+      * cbn [firstn concat]. rewrite V', V1, app_assoc. reflexivity.
+      * cbn [firstn concat length]. rewrite !app_length. destruct R as [(-> & ->)| ->]; [left; split; [reflexivity|f_equal; lia]|right; f_equal; lia].
+    + exists b1, (BOkN false written), 0. cbn [firstn concat length]. rewrite app_nil_r, Nat.add_0_r.
+      split; [reflexivity|]. split; [assumption|]. split; [lia|]. split; [assumption|right; reflexivity].
+Qed.
 
 Theorem sb_step_a_refines : forall ok o b, sb_wf_a b -> sb_op_ok_a o ->
   match by_step o (sb_view b) with
@@ -113,17 +149,8 @@ Theorem sb_step_a_refines : forall ok o b, sb_wf_a b -> sb_op_ok_a o ->
 Proof.
   intros ok o b W OK. destruct o; cbn [by_step sb_step_a]; cbn [sb_op_ok_a] in OK; try contradiction.
   - (* write *)
-    destruct (Nat.eqb_spec (length xs) 0) as [E|E].
-    + apply length_zero_iff_nil in E. subst xs. rewrite app_nil_r. do 2 eexists. split; [reflexivity|]. split; [assumption|]. left; auto.
-    + destruct (sb_prepare_a_ok ok (length xs) b W) as (k & r & -> & A & B). cbn [rbind fst snd].
-      destruct b as [d s]; cbn [sbdata sbsize] in *. destruct r.
-      * specialize (A eq_refl). unfold sb_poke; cbn [sbdata sbsize]. rewrite app_length, repeat_length.
-        destruct (Nat.leb_spec (s + length xs) (length d + k)); [|lia]. cbn [rbind sbdata sbsize].
-        destruct (sb_ext_wf_a d s k W ltac:(lia)) as (W' & V').
-        destruct (sb_append_ok_a (d ++ repeat 0%Z k) s xs W' ltac:(rewrite app_length, repeat_length; lia)) as (W'' & V'').
-        do 2 eexists. split; [reflexivity|]. split; [assumption|]. left. rewrite V'', V'. auto.
-      * rewrite (B eq_refl). cbn [repeat]. rewrite app_nil_r. do 2 eexists. split; [reflexivity|]. split; [assumption|].
-        right. split; reflexivity.
+    destruct (sb_write_a_ok ok xs b W) as (b' & r & -> & W' & V'). cbn [rbind fst snd].
+    do 2 eexists. split; [reflexivity|]. split; [assumption|]. destruct r; [left; auto|right; split; [assumption|reflexivity]].
   - (* writebyte *)
     destruct (Nat.eqb_spec n 0) as [E|E].
     + subst n. cbn [repeat]. rewrite app_nil_r. do 2 eexists. split; [reflexivity|]. split; [assumption|]. left; auto.
